@@ -1,7 +1,7 @@
 """C07 -- every output format encodes the same derivation (structural clauses)."""
 import ast
 
-from ..core import AnalysisError, src, qualname_of, enclosing_function
+from ..core import AnalysisError, src, qualname_of, enclosing_function, src_ref
 from ..pysym import SymExec, show, subterms, str_parts
 from ..rules_pyx import N, C, A
 from .. import codec
@@ -122,7 +122,7 @@ def r_conll_heads(repo, rep, R='R7.1'):
     rep.check(ok, R, '%s:%s conll_of.rec' % (CONLL, crec.lineno), 'conll:head-column', 'the head column prints dependencies[counter-1] + 1 (1-based, 0 = root)',
               'head column is %s' % [show(c) for c in col][:2])
     co = mod.get('conll_of')
-    rep.check(any(isinstance(n, ast.Assign) and src(n.value) == '_resolve_dependencies(tree)' for n in ast.walk(co)), R,
+    rep.check(any(isinstance(n, ast.Assign) and src_ref(n.value) == '_resolve_dependencies(tree)' for n in ast.walk(co)), R,
               '%s:%s conll_of' % (CONLL, co.lineno), 'conll:uses-resolve', 'the column is computed by _resolve_dependencies(tree) of the printed tree',
               'conll_of does not call _resolve_dependencies(tree)')
     cnt = [src(n) for n in ast.walk(crec) if isinstance(n, ast.AugAssign) and src(n.target) == 'counter']
@@ -188,7 +188,7 @@ def r_numbering(repo, rep, R='R7.3'):
                         if isinstance(n, ast.Call):
                             txt = src(n)
                             is_sink = ('.format(' in txt and 'header' in src(n.func)) or ("'sentence'" in txt and src(n.func).endswith('.set')) or \
-                                (src(n.func) in ('_prolog_string',)) or (src(n.func).endswith('.write') and 'ccg(' in txt)
+                                (src_ref(n.func) in ('_prolog_string',)) or (src(n.func).endswith('.write') and 'ccg(' in txt)
                             if is_sink:
                                 names = {x.id for x in ast.walk(n) if isinstance(x, ast.Name)}
                                 uses.append((idx in names, bool(inner_idx & names) and idx not in names, txt[:60]))
